@@ -88,6 +88,7 @@ func main() {
 	repo := flag.String("repo", "/repo", "repository root")
 	out := flag.String("out", "", "output directory")
 	pinSeed := flag.Bool("pinseed", true, "overlay runtime/rand.go with a pinned seed")
+	quicOut := flag.String("quicgo", "", "directory for the patched copy of quic-go (empty = skip)")
 	flag.Parse()
 	if *out == "" {
 		fatal("missing -out")
@@ -178,6 +179,9 @@ func main() {
 			fmt.Println("simgen: WARNING retake anchor not found")
 		}
 	}
+	if *quicOut != "" {
+		must(patchQuicGo(*repo, *quicOut))
+	}
 	ov, _ := json.MarshalIndent(map[string]any{"Replace": replace}, "", " ")
 	must(os.WriteFile(filepath.Join(*out, "overlay.json"), ov, 0o644))
 	keys := make([]string, 0, len(replace))
@@ -228,6 +232,100 @@ func rewrite(path string, src []byte, swaps map[string][2]string) ([]byte, bool,
 	dir := fmt.Sprintf("/*line %s:%d:%d*/", path, pos.Line, pos.Column)
 	out = append(out[:pkgOff], append([]byte(dir), out[pkgOff:]...)...)
 	return out, true, nil
+}
+
+// patchQuicGo copies the quic-go version pinned by the repository's go.mod
+// out of the module cache (non-test Go files only) and fixes one comparison:
+// the connection's run loop handles a loss-detection timeout only if it is
+// strictly before time.Now().  Under a fake clock a timer fires exactly at
+// its deadline, so Now() == timeout, the timeout is never handled, the timer
+// is re-armed for the same instant and the loop spins forever.  (The go
+// command refuses -overlay for files in the module cache, hence a replace.)
+func patchQuicGo(repo, out string) error {
+	gm, err := os.ReadFile(filepath.Join(repo, "go.mod"))
+	if err != nil {
+		return err
+	}
+	m := regexp.MustCompile(`github.com/quic-go/quic-go (v[0-9][^\s]*)`).FindSubmatch(gm)
+	if m == nil {
+		return fmt.Errorf("quic-go version not found in go.mod")
+	}
+	cache := os.Getenv("GOMODCACHE")
+	if cache == "" {
+		home, _ := os.UserHomeDir()
+		cache = filepath.Join(home, "go", "pkg", "mod")
+	}
+	src := filepath.Join(cache, "github.com", "quic-go", "quic-go@"+string(m[1]))
+	stamp := filepath.Join(out, ".version")
+	if b, err := os.ReadFile(stamp); err == nil && string(b) == string(m[1]) {
+		return nil // already there
+	}
+	os.RemoveAll(out)
+	patched := false
+	err = filepath.Walk(src, func(p string, info os.FileInfo, err error) error {
+		if err != nil {
+			return err
+		}
+		rel, _ := filepath.Rel(src, p)
+		if info.IsDir() {
+			switch rel {
+			case "integrationtests", "example", "fuzzing", "interop", "docs", ".github", ".circleci":
+				return filepath.SkipDir
+			}
+			return os.MkdirAll(filepath.Join(out, rel), 0o755)
+		}
+		base := filepath.Base(p)
+		if strings.HasSuffix(base, "_test.go") || !(strings.HasSuffix(base, ".go") || base == "go.mod" || base == "go.sum" || base == "LICENSE") {
+			return nil
+		}
+		b, err := os.ReadFile(p)
+		if err != nil {
+			return err
+		}
+		if rel == "connection.go" {
+			const anchor = "!timeout.IsZero() && timeout.Before(now) {"
+			const anchor2 = "(s.handshakeComplete && now.After(s.nextIdleTimeoutTime())) {"
+			if strings.Count(string(b), anchor) == 1 && strings.Count(string(b), anchor2) == 1 {
+				b = []byte(strings.Replace(string(b), anchor, "!timeout.IsZero() && !timeout.After(now) {", 1))
+				// same for the idle time-out: "now.After(deadline)" never holds when the timer fires exactly at the deadline
+				b = []byte(strings.Replace(string(b), anchor2, "(s.handshakeComplete && !now.Before(s.nextIdleTimeoutTime())) {", 1))
+				patched = true
+			}
+			// The run loop assumes that time moves on between iterations: when a
+			// deadline (pacing budget, ack alarm, ...) is re-armed for an instant
+			// that is not after Now(), the timer fires at once and the loop
+			// spins; with real time that resolves itself, under a fake clock it
+			// never does.  Let one microsecond of fake time pass per timer wake-up.
+			const anchor3 = "\t\t\tcase <-s.timer.Chan():\n\t\t\t\ts.timer.SetRead()\n"
+			if strings.Count(string(b), anchor3) == 1 {
+				b = []byte(strings.Replace(string(b), anchor3, anchor3+"\t\t\t\ttime.Sleep(time.Microsecond)\n", 1))
+			} else {
+				fmt.Println("simgen: WARNING quic-go timer anchor not found")
+			}
+		}
+		if rel == filepath.Join("http3", "client.go") {
+			// The HTTP/3 client dials inside a sync.Once: concurrent requests
+			// block on the Once's mutex while the first one waits for the
+			// network.  A goroutine blocked on a real mutex is not "durably
+			// blocked" for synctest, so the bubble's clock would never advance.
+			const imp = "\t\"sync\"\n"
+			if strings.Count(string(b), imp) == 1 {
+				b = []byte(strings.Replace(string(b), imp, "\tsync \""+fac+"vsync\"\n", 1))
+			} else {
+				fmt.Println("simgen: WARNING http3/client.go sync import not found")
+			}
+		}
+		return os.WriteFile(filepath.Join(out, rel), b, 0o644)
+	})
+	if err != nil {
+		return err
+	}
+	if !patched {
+		fmt.Println("simgen: WARNING quic-go anchor not found; copy is unpatched")
+	} else {
+		fmt.Println("simgen: quic-go", string(m[1]), "copied and patched (loss-detection timeout at exactly Now)")
+	}
+	return os.WriteFile(stamp, m[1], 0o644)
 }
 
 var rangeRe = regexp.MustCompile(`(?m)^(\s*)for (\w+)(?:, (\w+))? := range ([\w.]+) \{[ \t]*$`)
